@@ -275,7 +275,7 @@ func (s *Solver) solveWith(sp *Specs, o *Obligation, which []int, res *SolveResu
 	if res.Status == "" {
 		res.Status = "unknown"
 	}
-	if res.Status != "unsat" {
+	if res.Status != "unsat" || os.Getenv("GCV_KEEPALL") != "" {
 		keep = os.Getenv("GCV_KEEP") != ""
 	}
 	if s.cacheDir != "" && res.Status == "unsat" {
